@@ -24,7 +24,8 @@
 (*   steps  [op |-> "add", bd |-> boundaries of the inserted block] |       *)
 (*          [op |-> "link", x, y] | [op |-> "readd", n], each with what was *)
 (*          observed after the call: lay = graph.support._map as            *)
-(*          <<addr, len>>, ed = edges as <<addr, addr>>, exc/sig = the      *)
+(*          <<addr, len>>, ed = edges as <<addr, addr, mapped, mapped>>,    *)
+(*          exc/sig = the                                                   *)
 (*          exception the call ended with                                   *)
 (* The statement's clauses are evaluated on the OBSERVED states only:       *)
 (*   Disjoint, Covers, FallThrough (see CfgOps), Raised.                    *)
@@ -230,7 +231,7 @@ GraphStep ==
                    ELSE IF e.exc # "" THEN "Raised"
                    ELSE IF ~DisjointL(lay) THEN "Disjoint"
                    ELSE IF ~CoversL(lay, ins2) THEN "Covers"
-                   ELSE IF si # 0 /\ ~FallThroughE(pEd, ed, pLay[si][1], a0) THEN "FallThrough"
+                   ELSE IF si # 0 /\ ~FallThroughO(pEd, ed, pLay[si][1], a0) THEN "FallThrough"
                    ELSE ""
          asis   == obs = ProjM(ma2)
          sw     == {F \in Swallows : ProjM(StepM(ma, nodesA, e, AsIs \ {F})) # ProjM(ma2)}
